@@ -16,7 +16,7 @@ import vlib
 from vlib import ostr, flit, fme
 from props import c01, c02
 
-EXTRA_TARGETS = ['Iso/AccessShow.vo']
+EXTRA_TARGETS = ['Iso/AccessShow.vo', 'Iso/ModelShow.vo']
 MANIFEST = dict(
     text="Machine-checked (Coq 8.16) theorems about a hand-written Gallina model of PointIsotherm.data/pressure/loading/loading_at/pressure_at "
          "(Iso/IsoAccess.v) that calls the converters GENERATED from the source: for every stored and requested representation, every branch and "
@@ -337,6 +337,7 @@ def explore(rep, tier, seed, judge=True):
     if judge:
         interpolation_oracle(rep, tier, seed)
         split_oracle(rep, tier, seed)
+        model_isotherm_phase(rep, tier, seed)
     rep.cov['evaluations'] = rep.cov.get('evaluations', 0) + n_q
     rep.cov['distinct_nontrivial'] = rep.cov.get('distinct_nontrivial', 0) + len(nontrivial)
     rep.cov['rule'] = ('random stored representation (pressure 10 x loading 27 x material 19, K/degC, user / CoolProp adsorbates) x queries pressure / loading / '
@@ -351,7 +352,157 @@ def explore(rep, tier, seed, judge=True):
     rep.cov['trusted_base'] += ['hand-written model Iso/IsoAccess.v (validated by the per-call correspondence above)',
                                 'scipy.interpolate.interp1d(kind=linear) = piecewise-linear interpolant over sorted knots, ValueError outside without fill (contract)',
                                 'translators tools/py2v_units.py, tools/py2v_iso.py']
-    rep.assumptions += ['interpolation kinds other than linear are not modelled (cache keys only)', 'ModelIsotherm accessors validated by runs in C10, not modelled here']
+    rep.assumptions += ['interpolation kinds other than linear are not modelled (cache keys only)', 'ModelIsotherm.loading_at / pressure_at are generated (Gen/ModelIsoGen.v) for one query point; arrays and the pressure() / loading() point generators of ModelIsotherm are validated by runs in C10']
+
+
+
+# ---------------------------------------------------------------------------------------------------------------------
+# MODEL isotherms: ModelIsotherm.loading_at / pressure_at with unit arguments. The generated model (Gen/ModelIsoGen.v, translated
+# from core/modelisotherm.py) is executed over exact rationals with an exact rational fitted model (Langmuir / Henry) and compared
+# per call; the property oracle compares with a POINT isotherm built from the model's own points, permanently converted to the
+# requested representation and read natively ("the numbers obtained by permanently converting a copy").
+MHEADER = """From Coq Require Import QArith ZArith String List.
+From PG Require Import Lib.Num Lib.Py Lib.Show Gen.UnitsGen1 Units.AdsOracle Gen.UnitsGen2 Iso.IsoState Gen.IsoGen Gen.ModelIsoGen Iso.ModelShow.
+Import ListNotations. Open Scope string_scope.
+"""
+
+
+def _model_iso(rp, rl, rm, tu, T, kind, params, branch='ads'):
+    import pygaps
+    from pygaps.modelling import get_isotherm_model
+    key = 'verif_ads_' + '_'.join(sorted(c02.ADS_FULL))
+    if key not in c02._ADS:
+        c02._ADS[key] = pygaps.Adsorbate(key, store=True, **c02.ADS_FULL)
+    m = get_isotherm_model(kind, parameters=dict(params))
+    return pygaps.ModelIsotherm(model=m, branch=branch, material=pygaps.Material('verif_mat_m', **c02.MAT_FULL), adsorbate=key, temperature=T, temperature_unit=tu,
+                                pressure_mode=rp[0], pressure_unit=rp[1], loading_basis=rl[0], loading_unit=rl[1],
+                                material_basis=rm[0], material_unit=rm[1])
+
+
+def model_isotherm_phase(rep, tier, seed):
+    import pygaps
+    rnd = random.Random(seed + 11)
+    n_iso = 40 if tier == 'quick' else 400
+    cases = []      # (init, kind, params, branch, method, x, args(b,pu,pm,lu,lb,mu,mb))
+    GARB = [None, '', 'bogus', 'bar', 'mmol', 'mass', 'K']
+    for gi in range(n_iso):
+        rp, rl, rm = rnd.choice(PREPS), rnd.choice(LREPS), rnd.choice(MREPS)
+        tu = rnd.choice(['K', 'K', '°C'])
+        T = 77.355 if tu == 'K' else -195.795
+        if rnd.random() < 0.7:
+            kind, params = 'Langmuir', {'n_m': rnd.choice([3.0, 0.75, 12.5]), 'K': rnd.choice([0.8, 4.0, 0.05])}
+        else:
+            kind, params = 'Henry', {'K': rnd.choice([0.5, 2.0, 7.25])}
+        mbranch = rnd.choice(['ads', 'ads', 'des'])
+        init = (rp, rl, rm, tu, T, kind, params, mbranch)
+        for _ in range(rnd.randint(4, 8)):
+            meth = rnd.choice(['loading_at', 'pressure_at'])
+            rp2, rl2, rm2 = rnd.choice(PREPS), rnd.choice(LREPS), rnd.choice(MREPS)
+            k = rnd.random()
+            pu, pm = (rp2[1], rp2[0]) if rnd.random() < 0.7 else (None, None)
+            lu, lb = (rl2[1], rl2[0]) if rnd.random() < 0.7 else (None, None)
+            mu, mb = (rm2[1], rm2[0]) if rnd.random() < 0.5 else (None, None)
+            if k < 0.12:      # partial: one of a pair omitted
+                which = rnd.choice(['pu', 'pm', 'lu', 'lb', 'mu', 'mb'])
+                pu, pm, lu, lb, mu, mb = [None if n == which else v for n, v in zip(['pu', 'pm', 'lu', 'lb', 'mu', 'mb'], [pu, pm, lu, lb, mu, mb])]
+            elif k < 0.24:    # malformed
+                which = rnd.choice(['pu', 'pm', 'lu', 'lb', 'mu', 'mb'])
+                g = rnd.choice(GARB)
+                pu, pm, lu, lb, mu, mb = [g if n == which else v for n, v in zip(['pu', 'pm', 'lu', 'lb', 'mu', 'mb'], [pu, pm, lu, lb, mu, mb])]
+            b = rnd.choice([None, None, None, 'ads', 'des', ''])
+            x = rnd.choice([0.1, 0.35, 0.5, 0.9, 1.5, 2.0e-3, 40.0])
+            cases.append((init, meth, x, (b, pu, pm, lu, lb, mu, mb)))
+    impl = []
+    isos = {}
+    for init, meth, x, a in cases:
+        key = repr(init)
+        if key not in isos:
+            isos[key] = _model_iso(*init[:7], branch=init[7])
+        iso = isos[key]
+        b, pu, pm, lu, lb, mu, mb = a
+        try:
+            r = getattr(iso, meth)(x, branch=b, pressure_unit=pu, pressure_mode=pm, loading_unit=lu, loading_basis=lb, material_unit=mu, material_basis=mb)
+            r = float(np.asarray(r, dtype=float))
+            impl.append(('Ok', r) if np.isfinite(r) else ('nonfinite', r))
+        except Exception as e:  # noqa
+            impl.append((vlib.exn_class(e), None))
+    terms = []
+    for (init, meth, x, a), (oc, val) in zip(cases, impl):
+        rp, rl, rm, tu, T, kind, params, mbranch = init
+        st = c02.coq_iso(rp, rl, rm, tu, T, 'verif_ads_' + '_'.join(sorted(c02.ADS_FULL)), c02.MAT_FULL, P=[], L=[], B=[])
+        mk = '(MLangmuir %s %s)' % (flit(params['n_m']), flit(params['K'])) if kind == 'Langmuir' else '(MHenry %s)' % flit(params['K'])
+        m, e = fme(val) if oc == 'Ok' else (0, 0)
+        code = vlib.EXN.index(oc) if oc in vlib.EXN else 99
+        terms.append('mcmp 1 1000000000 (mquery %s %s %s %s %s %s) (%d) (%d) (%d)' % (
+            mk, ostr(mbranch), st, 'true' if meth == 'loading_at' else 'false', flit(x), ' '.join(ostr(v) for v in a), code, m, e))
+    model = None
+    try:
+        model = vlib.run_coq_cases('c03mm', MHEADER, 'fun x : Z*Z => x', terms)
+    except RuntimeError as e:
+        rep.broken_obligation('correspondence:ModelIsoGen-evaluation', str(e)[-800:])
+    n_dis = 0
+    hist = {}
+    nontrivial = set()
+    twins = {}
+    for i, ((init, meth, x, a), (oc, val)) in enumerate(zip(cases, impl)):
+        hist[(meth, oc)] = hist.get((meth, oc), 0) + 1
+        if model is not None and oc != 'nonfinite':
+            code, agree = model[i]
+            if not agree:
+                n_dis += 1
+                if n_dis <= 6:
+                    rep.broken_obligation('correspondence:ModelIsoGen-vs-implementation',
+                                          {'init': [str(v) for v in init], 'method': meth, 'x': x, 'args': [str(v) for v in a], 'implementation': [oc, val], 'model_outcome': vlib.EXN[code]})
+        # ---- property oracle: permanently convert a point-isotherm copy of the model's own points, read natively
+        rp, rl, rm, tu, T, kind, params, mbranch = init
+        b, pu, pm, lu, lb, mu, mb = a
+        full = ((pm, pu) in PREPS or (pm is None and pu is None)) and ((lb, lu) in LREPS or (lb is None and lu is None)) and \
+               ((mb, mu) in MREPS or (mb is None and mu is None)) and b in (None, mbranch)
+        if meth == 'pressure_at' and lb in ('fraction', 'percent'):
+            full = False     # a loading without a unit is refused by pressure_at (theorem model_queries_refuse_unitless_arguments)
+        frac_mat = rl[0] in ('fraction', 'percent') and (mb or mu)
+        if not full or frac_mat:
+            continue
+        f = (lambda p: params['n_m'] * params['K'] * p / (1 + params['K'] * p)) if kind == 'Langmuir' else (lambda p: params['K'] * p)
+        # native points: the query point itself is one of them
+        try:
+            tgt = ((pm, pu) if pm else rp, (lb, lu) if lb else rl, (mb, mu) if mb else rm)
+            if meth == 'loading_at':
+                # x is a pressure in the requested representation: find its native value by converting a twin the other way
+                tw = c02.make_iso(tgt[0], rl, rm, tu, T, c02.ADS_FULL, c02.MAT_FULL, tag='mq', P=[x, 2 * x], L=[1.0, 2.0], B=[0, 0])
+                tw.convert_pressure(mode_to=rp[0], unit_to=rp[1])
+                p_nat = float(tw.pressure()[0])
+                pts = c02.make_iso(rp, rl, rm, tu, T, c02.ADS_FULL, c02.MAT_FULL, tag='mp', P=[p_nat, 2 * p_nat], L=[f(p_nat), f(2 * p_nat)], B=[0, 0])
+                pts.convert(pressure_mode=tgt[0][0], pressure_unit=tgt[0][1], material_basis=tgt[2][0], material_unit=tgt[2][1], loading_basis=tgt[1][0], loading_unit=tgt[1][1])
+                want = float(pts.loading()[0])
+            else:
+                # x is a loading in the requested representation
+                tw = c02.make_iso(rp, tgt[1], tgt[2], tu, T, c02.ADS_FULL, c02.MAT_FULL, tag='mq', P=[0.1, 0.2], L=[x, 2 * x], B=[0, 0])
+                tw.convert(material_basis=rm[0], material_unit=rm[1], loading_basis=rl[0], loading_unit=rl[1])
+                n_nat = float(tw.loading()[0])
+                finv = (lambda n: n / (params['K'] * (params['n_m'] - n))) if kind == 'Langmuir' else (lambda n: n / params['K'])
+                p_nat = finv(n_nat)
+                if not np.isfinite(p_nat):
+                    continue
+                pts = c02.make_iso(rp, rl, rm, tu, T, c02.ADS_FULL, c02.MAT_FULL, tag='mp', P=[p_nat, p_nat + 1.0], L=[n_nat, n_nat * 1.5], B=[0, 0])
+                pts.convert_pressure(mode_to=tgt[0][0], unit_to=tgt[0][1])
+                want = float(pts.pressure()[0])
+        except Exception as e:  # noqa
+            rep.cov.setdefault('notes', []).append('model-isotherm oracle skipped: %r' % (e,))
+            continue
+        good = oc == 'Ok' and (val == want or abs(val - want) <= 1e-9 * max(abs(val), abs(want)))
+        if not good:
+            rep.failure('C03:unclassified:model-isotherm-vs-permanent:%s' % meth,
+                        'ModelIsotherm(%s).%s(%r, %r) = %r, a point copy converted permanently and read natively gives %r' % (kind, meth, x, a, (oc, val), want),
+                        {'kind': 'model-isotherm', 'init': [rp, rl, rm, tu, T, kind, params, mbranch], 'method': meth, 'x': x, 'args': list(a), 'observed': [oc, val], 'expected': want})
+        elif any(v is not None for v in a[1:]):
+            nontrivial.add((rp, rl, rm, meth, a[1:]))
+    rep.cov['evaluations'] = rep.cov.get('evaluations', 0) + len(cases)
+    rep.cov['distinct_nontrivial'] = rep.cov.get('distinct_nontrivial', 0) + len(nontrivial)
+    rep.cov['model_isotherm'] = {'calls': len(cases), 'disagreements_with_generated_model': n_dis, 'judged_nontrivial': len(nontrivial),
+                                 'outcomes': {'%s/%s' % k: v for k, v in sorted(hist.items())},
+                                 'what': 'Gen/ModelIsoGen.v (generated from core/modelisotherm.py, QNum, exact Langmuir / Henry) vs ModelIsotherm.loading_at / pressure_at per call; '
+                                         'oracle: a point isotherm made of the model\'s own points, converted permanently, read natively'}
 
 
 def interpolation_oracle(rep, tier, seed):
